@@ -229,6 +229,38 @@ def place_fields(body, place):
 
 def trace(body, x, through_casts=True, extra_transparent=(), max_steps=64):
     """x: Operand | Place.  See module docstring."""
+    t = _trace0(body, x, through_casts, extra_transparent, max_steps)
+    # projections that were appended after the walk reached a fresh aggregate: keep descending
+    for _ in range(6):
+        if t.kind == "rv" and t.fields and t.root[1].rv.kind == "agg" and t.root[1].rv.j["ak"] in ("tuple", "adt"):
+            rv = t.root[1].rv
+            sel = None
+            f0 = t.fields[0]
+            if rv.j["ak"] == "tuple" and f0.startswith("tuple."):
+                try:
+                    sel = int(f0.split(".")[1])
+                except ValueError:
+                    sel = None
+            elif rv.j["ak"] == "adt":
+                nm = f0.rsplit(".", 1)[-1]
+                own = f0.rsplit(".", 1)[0]
+                adt_short = short_owner(rv.j["adt"] + ("::" + rv.j["variant"] if rv.j.get("is_enum") else ""))
+                if nm in rv.j.get("fields", []) and (own == adt_short or own.split("::")[-1] == adt_short.split("::")[-1]):
+                    sel = rv.j["fields"].index(nm)
+            if sel is None or sel >= len(rv.ops):
+                break
+            op = rv.ops[sel]
+            rest = t.fields[1:]
+            if op.kind == "const":
+                return Trace(("const", op), rest, t.variants, t.steps, t.casts)
+            sub = _trace0(body, op, through_casts, extra_transparent, max_steps)
+            t = Trace(sub.root, sub.fields + rest, sub.variants + t.variants, t.steps + sub.steps, t.casts + sub.casts)
+        else:
+            break
+    return t
+
+
+def _trace0(body, x, through_casts=True, extra_transparent=(), max_steps=64):
     if isinstance(x, Operand):
         if x.kind == "const":
             return Trace(("const", x), [], [], [], [])
@@ -253,6 +285,36 @@ def trace(body, x, through_casts=True, extra_transparent=(), max_steps=64):
             defs = body.all_defs(l)
             if not defs:
                 return Trace(("undef", l, body.local_name(l)), fields, variants, steps, casts)
+            # `(x as Some).0...` of a local assigned `None` here and `Some(..)` there: only the definition
+            # building that variant can be the one projected
+            if fields and "::" in fields[0] and "." in fields[0]:
+                owner_variant = fields[0].rsplit(".", 1)[0].split("::")[-1]
+                def _eff(x):
+                    for _i in range(3):
+                        if isinstance(x, Stmt) and x.rv.kind == "use" and x.rv.ops[0].place is not None and x.rv.ops[0].place.is_local:
+                            y = body.unique_def(x.rv.ops[0].place.local)
+                            if y is None:
+                                return x
+                            x = y
+                        else:
+                            return x
+                    return x
+                effs = [_eff(x) for x in defs]
+                cands = [x for x in effs if isinstance(x, Stmt) and x.rv.kind == "agg" and x.rv.j.get("is_enum") and x.rv.j.get("variant") == owner_variant]
+                others_ok = all((isinstance(x, Stmt) and x.rv.kind == "agg" and x.rv.j.get("is_enum")) for x in effs)
+                if not others_ok:
+                    cands = []
+                if len(cands) == 1:
+                    nm = fields[0].rsplit(".", 1)[1]
+                    names = cands[0].rv.j.get("fields", [])
+                    if nm in names and names.index(nm) < len(cands[0].rv.ops):
+                        op = cands[0].rv.ops[names.index(nm)]
+                        rest = fields[1:]
+                        steps.append(cands[0])
+                        if op.kind == "const":
+                            return Trace(("const", op), rest, variants, steps, casts)
+                        sub = _trace0(body, op, through_casts, extra_transparent, max_steps - 1)
+                        return Trace(sub.root, sub.fields + rest, sub.variants + variants, steps + sub.steps, casts + sub.casts)
             return Trace(("multi", l, body.local_name(l), defs), fields, variants, steps, casts)
         steps.append(d)
         if isinstance(d, Stmt):
@@ -286,7 +348,7 @@ def trace(body, x, through_casts=True, extra_transparent=(), max_steps=64):
                             return Trace(("const", op), fields, variants, steps, casts)
                         return Trace(("const", op), fields, variants, steps, casts)
                     # restart the walk at the operand, keeping the remaining outer fields
-                    sub = trace(body, op, through_casts, extra_transparent, max_steps - 1)
+                    sub = _trace0(body, op, through_casts, extra_transparent, max_steps - 1)
                     return Trace(sub.root, sub.fields + fields, sub.variants + variants, steps + sub.steps, casts + sub.casts)
             if rv.kind == "cast" and through_casts:
                 op = rv.ops[0]
